@@ -1,43 +1,558 @@
-"""C01 - Evaluation is total: no panic, no hang, one result slot per input line.  (P rule; T and S follow)"""
+"""C01 - Evaluation is total: no panic, no hang, one result slot per input line.
+
+P1 every construct that can unwind in a body reachable from execute / execute_session is discharged (vocabulary of
+DESIGN.md section 4), reviewed with re-checked witnesses, or a listed known finding;
+T1 every natural loop in reach matches a ranking template (iterator / counter / rewrite-flag / parser-cursor /
+reviewed); T2 the call-graph SCCs in reach are the reviewed ones; S1 line split literal; S2 one push per line in
+execute_session; S3 cursor guard and increment of next_line.
+Not decided: stack exhaustion on deep nesting; allocation failure; panics inside regex / chrono / serde on inputs
+within their documented domain; user RuleTrait code.
+"""
 import collections
 import re
 
-from ..facts import render, strip, walk, fn_key, AnchorLost
+from ..facts import render, strip, walk, fn_key, AnchorLost, alternatives, cond_str, opplace
 from ..panics import enumerate_obligations, Discharger, held_across_calls
+from ..data import abstract_tokens
+from ..effects import collection_writes, cell_writes, spine_fields, fields_in
+from ..tables.reviewed import REVIEWED
+from .. import model
 
 
+# ------------------------------------------------------------------------------------------------ witnesses
+def w_patterns_nonempty(ctx, minimum=1):
+    bad = []
+    n = 0
+    for lang in ctx.config.languages:
+        for rn, p, org in model.all_patterns(ctx, lang):
+            n += 1
+            if len(abstract_tokens(p)) < minimum:
+                bad.append('%s: %r' % (org, p))
+    for fam, it in ctx.config.units():
+        for p in it['parse']:
+            n += 1
+            if len(abstract_tokens(p)) < minimum:
+                bad.append('types.%s[%s]: %r' % (fam, it['index'], p))
+    return (not bad, 'all %d configured patterns have >= %d tokens' % (n, minimum) if not bad else 'patterns with < %d tokens: %s' % (minimum, bad[:3]))
+
+
+def w_matcher_counter(ctx):
+    """in find_match and dynamic_type_tokinizer the pattern counter is only ever set to 0 or incremented by 1, and the
+    scan stops when it equals the pattern length"""
+    msgs = []
+    for rx in (r'^tokinizer::rule_tokinizer::find_match$', r'^tokinizer::dynamic_type_tokinizer::dynamic_type_tokinizer$', r'^types::find_location$'):
+        b = ctx.facts.one(rx)
+        locs = [l for l, n in b.names.items() if n == 'rule_token_index']
+        if not locs:
+            return (False, '%s: counter rule_token_index not found' % fn_key(b.path))
+        for l in locs:
+            for (bid, kind, x) in b.defs().get(l, []):
+                if kind != 'stmt':
+                    return (False, '%s: counter assigned from a call' % fn_key(b.path))
+                b._shallow = 'mut'
+                try:
+                    t = render(b.def_expr(bid, kind, x, 1, frozenset()))
+                finally:
+                    b._shallow = False
+                if t not in ('0', '($rule_token_index AddWithOverflow 1).#0', '($rule_token_index Add 1)'):
+                    return (False, '%s: counter assigned %s' % (fn_key(b.path), t))
+        # a break / exit guarded by total == counter inside the scan loop
+        found = False
+        for i in b.normal_blocks:
+            for s in b.blocks[i]['stmts']:
+                if s['k'] == 'assign' and s['rv'] == 'binop' and s['op'] == 'Eq':
+                    b._shallow = 'mut'
+                    try:
+                        l, r = render(b.expr(s['ops'][0])), render(b.expr(s['ops'][1]))
+                    finally:
+                        b._shallow = False
+                    if '$rule_token_index' in (l, r) and re.search(r'len\(', l + r) and b.in_loop(i):
+                        found = True
+        if not found:
+            return (False, '%s: no `pattern length == counter` exit inside the scan loop' % fn_key(b.path))
+        msgs.append(fn_key(b.path))
+    return (True, 'counter protocol holds in ' + ', '.join(msgs))
+
+
+def w_current_line_callers(ctx):
+    allowed = {'session::Session::next_line', 'smartcalc::SmartCalc::execute_text', 'smartcalc::SmartCalc::basic_execute',
+               "tokinizer::Tokinizer::<'a>::new", "tokinizer::Tokinizer::<'a>::token_infos"}
+    callers = set(ctx.cg.callers_of('session::Session::current_line'))
+    extra = callers - allowed
+    if extra:
+        return (False, 'current_line() is also called from %s' % sorted(extra))
+    # execute_session checks has_value() before the first execute_text
+    es = ctx.facts.body('smartcalc::SmartCalc::execute_session')
+    for bid, t in es.calls(r'SmartCalc::execute_text$'):
+        if not any(re.fullmatch(r'Session::has_value\(session\)!=\[0\]', c) for c in es.cond_text(bid)):
+            return (False, 'execute_session calls execute_text without has_value()')
+    be = ctx.facts.body('smartcalc::SmartCalc::basic_execute')
+    hv = [bid for bid, t in be.calls(r'Session::has_value$')]
+    for bid, t in be.calls(r'Session::current_line$'):
+        if not any(be.dominates(h, bid) for h in hv):
+            return (False, 'basic_execute reads the line before has_value()')
+    return (True, 'current_line() is only called behind has_value() or on a freshly set one-line session')
+
+
+def w_unit_indices(ctx):
+    idx = [it['index'] for fam, it in ctx.config.units()]
+    ok = idx and min(idx) >= 1
+    return (bool(ok), 'configured unit indices are in [%d, %d]' % (min(idx), max(idx)) if idx else 'no units')
+
+
+def w_unit_names(ctx):
+    bad = [(fam, it['index']) for fam, it in ctx.config.units() if not it.get('names')]
+    return (not bad, 'every configured unit has >= 1 name' if not bad else 'units without names: %s' % bad)
+
+
+WITNESSES = {
+    'patterns-nonempty': w_patterns_nonempty,
+    'matcher-counter-protocol': w_matcher_counter,
+    'current-line-callers': w_current_line_callers,
+    'unit-indices-ge-1': w_unit_indices,
+    'unit-names-nonempty': w_unit_names,
+}
+
+
+# ------------------------------------------------------------------------------------------------ P
 def p1_panics(ctx):
     """P1 every construct that can unwind in a body reachable from execute / execute_session is discharged"""
-    ctx.rule('P1', 'panic obligations in evaluation-reachable bodies', floor=300)
+    ctx.rule('P1', 'panic obligations in evaluation-reachable bodies', floor=380)
     reach = ctx.eval_reach()
     D = Discharger(ctx)
+    for w in D.annot['witness']:
+        ctx.rules['P1'].analysed.append('value annotation: ' + w)
     left = collections.defaultdict(list)
-    n = 0
     bodies = [ctx.facts.bodies[p] for p in sorted(reach) if ctx.facts.bodies[p].kind != 'promoted']
-    # first pass fills the discharger's environment (regex-digit value bounds) before intervals are used
+    ctx.rules['P1'].analysed.append('%d bodies reachable from execute/execute_session/basic_execute/format_result' % len(bodies))
     obs = []
+    nb = 0
     for b in bodies:
         o = enumerate_obligations(ctx, b)
         if o:
             ctx.fn(b)
+            nb += 1
         obs += o
-    for ob in obs:
-        if ob.kind in ('unwrap-result', 'unwrap-option'):
-            D.discharge(ob)
+    ctx.rules['P1'].analysed.append('%d obligations in %d bodies' % (len(obs), nb))
+    n = 0
     for ob in obs:
         n += 1
         d = D.discharge(ob)
         if d:
-            ctx.ok('P1', '%s: %s' % (ob.key(), d[1]), d[0], site=ob.loc, sample=(n % 37 == 0))
+            ctx.ok('P1', '%s: %s' % (ob.key(), d[1]), d[0], site=ob.loc, sample=(n % 41 == 0))
         else:
             left[ob.key()].append(ob)
     for b in bodies:
         for gt, ct, fam, why in held_across_calls(D, b):
-            left['%s/refcell-held-across-call/%s' % (fn_key(b.path), fam)].append(type('X', (), {'loc': ct['loc'], 'what': why, 'kind': 'refcell', 'body': b})())
-    ctx._left = left
+            ctx.rules['P1'].instances += 0
+            ctx.finding('P1', '%s/refcell-held-across-call/%s' % (fn_key(b.path), re.sub(r'\s+', '', fam)), why + ' (BorrowError / BorrowMutError at run time)', site=ct['loc'])
+    # reviewed entries (exact key and multiplicity, witnesses re-checked)
+    wcache = {}
     for key, items in sorted(left.items()):
-        for ob in items:
-            ctx.finding('P1', key, '%s in %s cannot be shown not to panic' % (ob.what, fn_key(ob.body.path)), site=ob.loc)
+        rv = REVIEWED.get(key)
+        covered = 0
+        if rv:
+            cnt, why, wit = rv
+            ok = True
+            for w in wit:
+                if w not in wcache:
+                    wcache[w] = WITNESSES[w](ctx)
+                    ctx.rules['P1'].analysed.append('witness %s: %s' % (w, wcache[w][1]))
+                if not wcache[w][0]:
+                    ok = False
+            if ok:
+                covered = min(cnt, len(items))
+        for i, ob in enumerate(items):
+            if i < covered:
+                ctx.ok('P1', '%s: reviewed - %s' % (key, rv[1][:140]), 'reviewed', site=ob.loc, reviewed=True, sample=False)
+            else:
+                extra = ''
+                if rv and covered == 0:
+                    bad = [w for w in rv[2] if not wcache[w][0]]
+                    extra = ' [reviewed entry void: witness %s failed: %s]' % (bad, '; '.join(wcache[w][1] for w in bad)[:200])
+                elif rv:
+                    extra = ' [the reviewed entry covers %d site(s) with this key, this is one more]' % rv[0]
+                ctx.finding('P1', key, '%s in %s cannot be shown not to panic%s' % (ob.what, fn_key(ob.body.path), extra), site=ob.loc)
+    stale = [k for k in REVIEWED if k not in left]
+    if stale:
+        ctx.rules['P1'].analysed.append('reviewed entries without a site today (stale, harmless): %s' % stale)
 
 
-RULES = [('P1', p1_panics)]
+# ------------------------------------------------------------------------------------------------ T
+ITER_NEXT = re.compile(r'Iterator>?::next$|::next$')
+
+
+def loop_template(ctx, b, L):
+    """-> (template, detail) or (None, why)"""
+    head, body_blocks = L['head'], L['body']
+    exits = [(x, s) for x in body_blocks for s in b.succs(x) if s not in body_blocks]
+    # L-iter: an Iterator::next call inside the loop whose None arm leaves the loop and whose block dominates every back edge
+    for x in sorted(body_blocks):
+        t = b.blocks[x]['term']
+        if t['k'] == 'call' and t.get('callee') and ITER_NEXT.search(t['callee']['path']):
+            cp = t['callee']['path']
+            if t['callee']['local'] and not re.search(r'UiTokenIterator', cp):
+                continue
+            if all(b.dominates(x, bk) for bk in L['backs']):
+                # the discriminant switch after it has an edge out of the loop
+                tgt = t['target']
+                tt = b.blocks[tgt]['term'] if tgt in b.blocks else None
+                if tt and tt['k'] == 'switch' and any(s not in body_blocks and b.blocks[s]['term']['k'] != 'unreachable' for s in b.succs(tgt)):
+                    return ('L-iter', short_callee(cp))
+    # L-counter: header tests  counter < len(v)  or  v.get(counter) is Some; every cycle path makes progress
+    for x in sorted(body_blocks):
+        t = b.blocks[x]['term']
+        if t['k'] != 'switch' or not any(s not in body_blocks and b.blocks[s]['term']['k'] != 'unreachable' for s in b.succs(x)):
+            continue
+        if not all(b.dominates(x, bk) for bk in L['backs']):
+            continue
+        b._shallow = 'mut'
+        try:
+            d = render(b.expr(t['discr']))
+        finally:
+            b._shallow = False
+        m = re.fullmatch(r'\(\$(\w+) Lt (?:Vec::len|len|slice::len)\((.*)\)\)', d) or re.fullmatch(r'discr\((?:slice::get|Vec::get)\((.*), \$(\w+)\)\)', d)
+        if not m:
+            continue
+        if d.startswith('discr('):
+            coll, cnt = m.group(1), m.group(2)
+        else:
+            cnt, coll = m.group(1), m.group(2)
+        ok, why = counter_progress(b, L, cnt, coll)
+        if ok:
+            return ('L-counter', '%s against %s: %s' % (cnt, coll, why))
+        return (None, 'counter loop on %s without progress on every path: %s' % (cnt, why))
+    return (None, 'no template matches')
+
+
+def short_callee(p):
+    return re.sub(r'<.*?>', '', p).rsplit('::', 2)[-2] if '::' in p else p
+
+
+def counter_progress(b, L, cnt, coll):
+    """on every acyclic path head -> back edge: (increments of cnt) - (net growth of coll) >= 1"""
+    body_blocks = L['body']
+    cl = [l for l, n in b.names.items() if n == cnt]
+
+    def delta(x):
+        dc = dl = 0
+        for s in b.blocks[x]['stmts']:
+            if s['k'] == 'assign' and s['lhs']['local'] in cl and not s['lhs']['proj']:
+                b._shallow = 'mut'
+                try:
+                    t = render(b.def_expr(x, 'stmt', s, 1, frozenset()))
+                finally:
+                    b._shallow = False
+                m = re.fullmatch(r'\(\$%s AddWithOverflow (\d+)\)\.#0|\(\$%s Add (\d+)\)' % (cnt, cnt), t)
+                if m:
+                    dc += int(m.group(1) or m.group(2))
+                elif t != '$' + cnt:
+                    return None
+        t = b.blocks[x]['term']
+        if t['k'] == 'call' and t.get('callee'):
+            cp = t['callee']['path']
+            if re.search(r'Vec::<.*>::(insert|push)$', cp):
+                b._shallow = 'mut'
+                try:
+                    r = render(b.expr(t['args'][0]))
+                finally:
+                    b._shallow = False
+                if r == coll:
+                    dl += 1
+            if re.search(r'Vec::<.*>::remove$', cp):
+                b._shallow = 'mut'
+                try:
+                    r = render(b.expr(t['args'][0]))
+                finally:
+                    b._shallow = False
+                if r == coll:
+                    dl -= 1
+        return (dc, dl)
+    worst = [None]
+    # nested loops inside: skip their back edges (inner loops are obligations of their own)
+    inner_heads = set(l2['head'] for l2 in b.loops() if l2['head'] in body_blocks and l2['head'] != L['head'])
+
+    def dfs(x, dc, dl, seen):
+        d = delta(x)
+        if d is None:
+            worst[0] = ('counter reassigned', x)
+            return
+        dc, dl = dc + d[0], dl + d[1]
+        for s in b.succs(x):
+            if s == L['head']:
+                prog = dc - dl
+                if worst[0] is None or (isinstance(worst[0], int) and prog < worst[0]):
+                    worst[0] = prog
+            elif s in body_blocks and s not in seen and not b.blocks[s]['cleanup']:
+                dfs(s, dc, dl, seen | {s})
+    dfs(L['head'], 0, 0, {L['head']})
+    if isinstance(worst[0], int) and worst[0] >= 1:
+        return True, 'minimal progress per iteration %d' % worst[0]
+    return False, 'minimal progress %s' % (worst[0],)
+
+
+FLAG_LOOPS = {
+    'tokinizer::rule_tokinizer::rule_tokinizer': ('execute_rules', 'Active typed tokens'),
+    'tokinizer::dynamic_type_tokinizer::dynamic_type_tokinizer': ('execute_rules', 'Active typed tokens'),
+    'variable::update_token_variables': ('update_tokens', 'non-Variable tokens right of "="'),
+}
+CURSOR_LOOPS = {'syntax::binary::parse_binary': 2, '<syntax::assignment::AssignmentParser as syntax::SyntaxParserTrait>::parse': 1}
+REVIEWED_LOOPS = {
+    'formatter::fract_information': (2, 'f is multiplied by 10 until |round(f) - f| crosses eps: for a finite fraction in (0,1) the first loop ends once f >= 1e-4 scale is reached, the second because an f64 has at most 1075 binary digits after the point (f becomes an integer or overflows to inf, where round(f) - f is NaN and the comparison is false)'),
+    'compiler::dynamic_type::DynamicTypeItem::calculate_unit': (1, 'search_index moves monotonically by 1 towards target.index and the loop also exits on the first missing index (group.get -> None)'),
+    'smartcalc::SmartCalc::execute_session': (1, 'one iteration per line: next_line() advances the cursor (S2, S3)'),
+}
+
+
+def t1_loops(ctx):
+    """T1 every natural loop in evaluation-reachable bodies has a checked ranking template"""
+    ctx.rule('T1', 'loops: ranking templates', floor=60)
+    reach = ctx.eval_reach()
+    ok2, msg2 = w_patterns_nonempty(ctx, minimum=2)
+    for p in sorted(reach):
+        b = ctx.facts.bodies[p]
+        if b.kind == 'promoted':
+            continue
+        loops = b.loops()
+        if not loops:
+            continue
+        ctx.fn(b)
+        rev_budget = REVIEWED_LOOPS.get(p, (0, ''))[0]
+        cur_budget = CURSOR_LOOPS.get(p, 0)
+        for L in loops:
+            tpl, detail = loop_template(ctx, b, L)
+            site = b.blocks[L['head']]['term']['loc']
+            if tpl:
+                ctx.ok('T1', '%s loop@bb%d: %s (%s)' % (fn_key(p), L['head'], tpl, detail), tpl, site=site, sample=False)
+                continue
+            if p in FLAG_LOOPS and flag_loop_ok(ctx, b, L, FLAG_LOOPS[p][0]):
+                if not ok2:
+                    ctx.finding('T1', '%s/rewrite-loop/one-token-pattern' % fn_key(p), 'rewrite loop of %s: %s - a pattern with fewer than two tokens replaces one token by one and the loop never shrinks its measure (%s)' % (fn_key(p), msg2, FLAG_LOOPS[p][1]), site=site)
+                else:
+                    ctx.ok('T1', '%s rewrite loop: flag set only behind remove+insert; %s' % (fn_key(p), msg2), 'L-flag', site=site)
+                continue
+            if cur_budget > 0 and cursor_loop_ok(ctx, b, L):
+                cur_budget -= 1
+                ctx.ok('T1', '%s parser loop: repeats only after a consumed token' % fn_key(p), 'L-cursor', site=site)
+                continue
+            if rev_budget > 0:
+                rev_budget -= 1
+                ctx.ok('T1', '%s loop: reviewed - %s' % (fn_key(p), REVIEWED_LOOPS[p][1][:120]), 'reviewed', site=site, reviewed=True)
+                continue
+            ctx.finding('T1', '%s/loop-without-measure' % fn_key(p), 'loop in %s matches no ranking template (%s): termination is not established' % (fn_key(p), detail), site=site)
+    cursor_witness(ctx)
+
+
+def flag_loop_ok(ctx, b, L, flag):
+    """`while flag { flag = false; ... }`: flag is assigned true only in blocks from which the loop head cannot be
+    reached without passing the insert that completes a rewrite"""
+    fl = [l for l, n in b.names.items() if n == flag]
+    if not fl:
+        return False
+    t = b.blocks[L['head']]['term']
+    if t['k'] != 'switch' or render(b.sexpr(t['discr'])).lstrip('$') != flag and flag not in render(b.sexpr(t['discr'])):
+        return False
+    inserts = set()
+    for bid, tt, method, recv in collection_writes(b):
+        if method == 'insert' and 'tokinizer::Tokinizer.token_infos' in spine_fields(recv):
+            inserts.add(bid)
+    sets_true = []
+    reset = False
+    for i in L['body']:
+        for s in b.blocks[i]['stmts']:
+            if s['k'] == 'assign' and s['lhs']['local'] in fl and not s['lhs']['proj'] and s['rv'] == 'use' and 'const' in s['ops'][0]:
+                v = s['ops'][0]['const']['val']
+                if v is True:
+                    sets_true.append(i)
+                elif v is False:
+                    reset = reset or b.dominates(i, L['backs'][0]) or True
+    if not sets_true or not reset or not inserts:
+        return False
+    for i in sets_true:
+        if i in inserts:
+            continue
+        if b.can_reach(i, L['head'], avoid=inserts) and not any(b.dominates(ins, i) for ins in inserts):
+            return False
+    return True
+
+
+def cursor_loop_ok(ctx, b, L):
+    """parser loops: the loop continues only through match_operator (which consumes) / consume_token, or by re-trying
+    T::parse after it returned Ok(None) (covered by cursor_witness)"""
+    calls = [b.blocks[x]['term']['callee']['path'] for x in L['body'] if b.blocks[x]['term']['k'] == 'call' and b.blocks[x]['term'].get('callee')]
+    return any(re.search(r'SyntaxParser::<.*>::(match_operator|consume_token)$|SyntaxParserTrait::parse$', c) for c in calls)
+
+
+def cursor_witness(ctx):
+    """the only Ok(None) a primary parser can hand to parse_binary's retry loop is the one returned *after* consuming
+    a Text / Timezone token; match_operator consumes the operator it matched"""
+    b = ctx.facts.one(r'^syntax::primative::PrimativeParser::parse_basic_primatives$')
+    ctx.fn(b)
+    consumes = [bid for bid, t in b.calls(r'SyntaxParser::<.*>::consume_token$|SyntaxParser::consume_token$')]
+    bad = []
+    n = 0
+    for (bid, kind, x) in b.defs().get(0, []):
+        if kind != 'stmt' or x['rv'] != 'aggr' or x['adt'] != 'core::result::Result::Ok':
+            continue
+        inner = b.expr(x['ops'][0])
+        for a, conds in alternatives(b, inner):
+            sa = strip(a)
+            if sa[0] == 'aggr' and sa[1] == 'types::SmartCalcAstType::None':
+                n += 1
+                if not any(b.dominates(c, bid) for c in consumes):
+                    # the arm `Ok(None) => { set_index(backup); Ok(None) }` is fine only if no alternative of `result` is None
+                    bad.append((bid, x['loc'], 'returns Ok(None) without having consumed a token'))
+    # alternatives of the matched `result`: no Ok(None) may flow into the restore arm
+    for l, nme in b.names.items():
+        if nme == 'result':
+            for (bid, kind, x) in b.defs().get(l, []):
+                e = b.def_expr(bid, kind, x, 1, frozenset())
+                for a, conds in alternatives(b, e):
+                    sa = strip(a)
+                    if sa[0] == 'aggr' and sa[1] == 'core::result::Result::Ok':
+                        for a2, c2 in alternatives(b, sa[2][0]):
+                            if strip(a2)[0] == 'aggr' and strip(a2)[1] == 'types::SmartCalcAstType::None':
+                                bad.append((bid, x['loc'], 'an arm yields Ok(None) for a token it did not consume; the cursor is restored and parse_binary retries the same token forever'))
+    live_bad = [x for x in bad if 'an arm yields' in x[2]]
+    # the restore arm itself is dead when no alternative is None
+    restore = [x for x in bad if 'returns Ok(None) without' in x[2]]
+    if live_bad:
+        for bid, loc, why in live_bad:
+            ctx.finding('T1', 'PrimativeParser::parse_basic_primatives/none-without-consume', 'parser cursor protocol: %s' % why, site=loc)
+    else:
+        ctx.ok('T1', 'parse_basic_primatives: Ok(None) only after consume_token (the restore arm is dead: no alternative of `result` is None)', 'L-cursor-witness', site=b.loc)
+    mo = ctx.facts.one(r"^syntax::SyntaxParser::<'a>::match_operator$")
+    some_rets = [bid for (bid, kind, x) in mo.defs().get(0, []) if kind == 'stmt' and x['rv'] == 'aggr' and x['adt'].endswith('Option::Some')]
+    cons = [bid for bid, t in mo.calls(r'consume_token$')]
+    if some_rets and all(any(mo.dominates(c, r) for c in cons) for r in some_rets):
+        ctx.ok('T1', 'match_operator returns Some only after consume_token', 'L-cursor-witness', site=mo.loc)
+    else:
+        ctx.finding('T1', 'SyntaxParser::match_operator/some-without-consume', 'match_operator can report a match without consuming it', site=mo.loc)
+
+
+REVIEWED_SCCS = [
+    (r'syntax::', 'parser ladder: every recursive descent happens after consume_token (parenthesis) or on a strictly shorter token suffix'),
+    (r'compiler::Interpreter::|DynamicTypeItem|SmartCalc::basic_execute', 'interpreter: recursion on AST children; the unit walk re-enters through basic_execute on a code string that is a linear number expression (C12/K5), so depth is 1'),
+    (r'core::clone::Clone>::clone$', 'derived Clone: structural recursion over a finite value'),
+    (r'TokenType as (alloc::string::ToString|core::cmp::PartialEq)|VariableInfo as', 'to_string / eq of a Variable token recurse into its name tokens (a finite tree: name tokens are taken left of "=", never Variables of themselves)'),
+    (r'types::SmartCalcAstType::type_name$', 'PrefixUnary / Variable recurse into a finite AST (a binding stores an evaluated Item, C03/V2)'),
+    (r'types::TokenType::field_compare|PartialEq.*for tokinizer::TokenInfo', 'comparison helpers call each other on finite values'),
+]
+
+
+def t2_recursion(ctx):
+    """T2 the recursive components of the evaluation call graph are the reviewed ones"""
+    ctx.rule('T2', 'call-graph SCCs in reach', floor=3)
+    reach = ctx.eval_reach()
+    for comp in ctx.cg.sccs(reach.keys()):
+        names = [fn_key(x) for x in comp if ctx.facts.bodies[x].kind != 'promoted']
+        ok = None
+        for rx, why in REVIEWED_SCCS:
+            if all(re.search(rx, x) or ctx.facts.bodies[x].kind == 'promoted' for x in comp):
+                ok = why
+                break
+        if ok:
+            ctx.ok('T2', 'SCC {%s}: %s' % (', '.join(names[:4]) + (' ...' if len(names) > 4 else ''), ok[:120]), 'reviewed', reviewed=True)
+        else:
+            ctx.finding('T2', 'scc/%s' % '+'.join(sorted(names))[:120], 'new recursive cycle in the evaluation call graph: %s' % names[:8], site=ctx.facts.bodies[comp[0]].loc)
+
+
+# ------------------------------------------------------------------------------------------------ S
+def s1_split(ctx):
+    """S1 lines are split by a regex literal that is exactly the alternation of CRLF and LF"""
+    ctx.rule('S1', 'line split literal', floor=1)
+    b = ctx.facts.body('session::Session::set_text')
+    ctx.fn(b)
+    rn = list(b.calls(r'Regex::new$'))
+    if len(rn) != 1:
+        raise AnchorLost('set_text: expected one Regex::new')
+    lit = model.const_str(b.expr(rn[0][1]['args'][0]))
+    if lit is None:
+        raise AnchorLost('set_text: split regex is not a literal')
+    h = ctx.config.rx.hir(lit)
+    alts = None
+    if h and h['k'] == 'alt' and all(x['k'] == 'lit' for x in h['subs']):
+        alts = sorted(x['s'] for x in h['subs'])
+    elif h and h['k'] == 'concat':
+        # regex-syntax factors the common suffix: (?:\r)?\n
+        from ..data import enumerate_language
+        L = enumerate_language(h)
+        alts = sorted(L) if L else None
+    if alts == ['\n', '\r\n']:
+        ctx.ok('S1', 'split literal %r matches exactly LF and CRLF' % lit, 'regex-language', site=rn[0][1]['loc'])
+    else:
+        ctx.finding('S1', 'set_text/split-literal', 'lines are split by %r whose language is %s; the statement says LF or CRLF' % (lit, alts), site=rn[0][1]['loc'])
+    sp = list(b.calls(r'Regex::split$'))
+    if len(sp) != 1 or 'self.text' not in render(b.expr(sp[0][1]['args'][1])):
+        ctx.finding('S1', 'set_text/split-target', 'set_text does not split self.text with that regex', site=b.loc)
+
+
+def s2_session_loop(ctx):
+    """S2 execute_session: status = true and one push per iteration, on every path, including the last line"""
+    ctx.rule('S2', 'one slot per line', floor=3)
+    b = ctx.facts.body('smartcalc::SmartCalc::execute_session')
+    ctx.fn(b)
+    loops = b.loops()
+    if len(loops) != 1:
+        raise AnchorLost('execute_session: expected one loop, found %d' % len(loops))
+    L = loops[0]
+    pushes = [bid for bid, t, m, recv in collection_writes(b) if m == 'push' and render(recv).endswith('.lines')]
+    execs = [bid for bid, t in b.calls(r'SmartCalc::execute_text$')]
+    nexts = [bid for bid, t in b.calls(r'Session::next_line$')]
+    if len(pushes) != 1 or len(execs) != 1 or len(nexts) != 1:
+        ctx.finding('S2', 'execute_session/shape', 'execute_session has %d push / %d execute_text / %d next_line sites; expected one each' % (len(pushes), len(execs), len(nexts)), site=b.loc)
+        return
+    pu, ex, nx = pushes[0], execs[0], nexts[0]
+    exits = [(x, s) for x in L['body'] for s in b.succs(x) if s not in L['body']]
+    ok = pu in L['body'] and ex in L['body'] and b.dominates(ex, pu) and all(b.dominates(pu, bk) for bk in L['backs']) and all(b.dominates(pu, x) for x, s in exits)
+    if ok:
+        ctx.ok('S2', 'every iteration (and the exit path) passes execute_text then lines.push', 'dominance', site=b.blocks[pu]['term']['loc'])
+    else:
+        ctx.finding('S2', 'execute_session/push-per-iteration', 'not every path through the line loop pushes exactly one slot after evaluating the line', site=b.blocks[pu]['term']['loc'])
+    # the loop is left only when next_line() is None
+    good_exit = all(b.dominates(nx, x) for x, s in exits)
+    if good_exit:
+        ctx.ok('S2', 'the loop is left only after next_line() returned None', 'dominance', site=b.blocks[nx]['term']['loc'])
+    else:
+        ctx.finding('S2', 'execute_session/early-exit', 'the line loop can be left without asking for the next line (a malformed line could stop the remaining ones)', site=b.loc)
+    # status = true dominates the loop
+    st = [i for i, s in field_sets(b, 'smartcalc::ExecuteResult.status')]
+    if st and all(b.dominates(i, L['head']) for i in st) and all(v == 'True' for i, v in field_sets(b, 'smartcalc::ExecuteResult.status')):
+        ctx.ok('S2', 'status = true before the first line', 'dominance', site=b.loc)
+    else:
+        ctx.finding('S2', 'execute_session/status', 'status is not set to true before the line loop', site=b.loc)
+
+
+def field_sets(b, field):
+    out = []
+    for i in b.normal_blocks:
+        for s in b.blocks[i]['stmts']:
+            if s['k'] == 'assign' and s['lhs']['proj'] and isinstance(s['lhs']['proj'][-1], dict) and s['lhs']['proj'][-1].get('field') == field:
+                out.append((i, render(b.expr(s['ops'][0]))))
+    return out
+
+
+def s3_next_line(ctx):
+    """S3 next_line: Some iff len > position + 1, then position := position + 1"""
+    ctx.rule('S3', 'cursor guard and increment', floor=2)
+    b = ctx.facts.body('session::Session::next_line')
+    ctx.fn(b)
+    sets = [(bid, t, recv) for bid, t, m, recv in cell_writes(b) if m == 'set' and 'session::Session.position' in fields_in(recv)]
+    if len(sets) != 1:
+        ctx.finding('S3', 'next_line/cursor-writes', 'next_line writes the cursor %d times' % len(sets), site=b.loc)
+        return
+    bid, t, recv = sets[0]
+    val = render(b.expr(t['args'][1]))
+    conds = b.cond_text(bid)
+    if val not in ('(Cell::get(self.position) AddWithOverflow 1).#0', '(Cell::get(self.position) Add 1)'):
+        ctx.finding('S3', 'next_line/increment', 'the cursor is set to %s; expected position + 1' % val, site=t['loc'])
+    else:
+        ctx.ok('S3', 'position := position + 1', 'const', site=t['loc'])
+    want = r'\(Vec::len\(self\.text_parts\) Gt \(Cell::get\(self\.position\) AddWithOverflow 1\)\.#0\)!=\[0\]|\(Vec::len\(self\.text_parts\) Gt \(Cell::get\(self\.position\) Add 1\)\)!=\[0\]'
+    if any(re.fullmatch(want, c) for c in conds):
+        ctx.ok('S3', 'advance only when len > position + 1', 'guard-dom', site=t['loc'])
+    else:
+        ctx.finding('S3', 'next_line/guard', 'the cursor advances under %s; expected len > position + 1' % conds, site=t['loc'])
+
+
+RULES = [('P1', p1_panics), ('T1', t1_loops), ('T2', t2_recursion), ('S1', s1_split), ('S2', s2_session_loop), ('S3', s3_next_line)]
